@@ -64,7 +64,7 @@ func run(cfg *hx.RunCfg) (*hx.Result, error) {
 			p.Free, p.Schedule = true, nil
 			b += "-free"
 		}
-		jobs = append(jobs, cx.Job{P: p, Bucket: b})
+		jobs = append(jobs, cx.Job{P: p, Bucket: b, NoModel: len(p.Init) == 0})
 	}
 	outs := cx.RunAll(jobs, 10, true)
 	for i, j := range jobs {
